@@ -244,7 +244,10 @@ func (r Relation) Join(r2 Relation, keys, leftOutput, rightOutput NamesSlice) Se
 	if rows.IsLiteralTrue() {
 		return True
 	}
-	attrs := append(leftOutput, rightOutput...)
+	// leftOutput may be the left operand's own attrs slice: never append into its backing array.
+	attrs := make(NamesSlice, 0, count)
+	attrs = append(attrs, leftOutput...)
+	attrs = append(attrs, rightOutput...)
 	if len(attrs) == 2 {
 		at, val := 0, 1
 		if attrs[val] == "@" {
